@@ -762,7 +762,12 @@ func (z *ZodObject[T, R]) validateObject(value map[string]any, chks []core.ZodCh
 		case ObjectModeStrict:
 			unknown = append(unknown, key)
 		case ObjectModeStrip:
-			// Omit unknown fields from result.
+			// Omit unknown fields from result; a catch-all schema still validates them.
+			if z.internals.Catchall != nil {
+				if err := z.validateField(val, z.internals.Catchall, ctx); err != nil {
+					collectFieldErrors(err, key, &errs, val)
+				}
+			}
 		case ObjectModePassthrough:
 			if z.internals.Catchall != nil {
 				if err := z.validateField(val, z.internals.Catchall, ctx); err != nil {
